@@ -297,6 +297,21 @@ pub fn hold_run_at(s: u32) {
 pub fn release_run() {
     hold_run_at(0);
 }
+/// the driver is about to block on the worker lock outside a tick (update_config): nothing may park
+pub fn begin_blocking() {
+    let c = ctl();
+    {
+        let mut st = c.st.lock();
+        st.no_park = true;
+        st.score_hold = None;
+    }
+    c.cv.notify_all();
+}
+pub fn end_blocking() {
+    let c = ctl();
+    c.st.lock().no_park = false;
+    c.cv.notify_all();
+}
 pub fn release_score() {
     let c = ctl();
     c.st.lock().score_hold = None;
